@@ -426,6 +426,142 @@ Definition mo_make_result (fin : list mo_factor) : mo_factor :=
 Definition move (A : list nat) (rs : list mo_rule) (order : list nat) : mo_factor :=
   mo_make_result (snd (fold_left (mo_remove_factor A) order (mo_make_graph A rs, []))).
 
+(* ---------- UCVE (the repaired code: own-factors bound, components, unmentioned = zero) ---------- *)
+
+(* exact comparison of  x + sqrt p  <=  y + sqrt q  (p, q >= 0), decided by case analysis on signs
+   and squares; proved exact in ProofsSqrt.v.  The C++ evaluates the same comparison in doubles. *)
+Local Open Scope Q_scope.
+Definition sqrt_sum_le (x p y q : Q) : bool :=
+  let d := y - x in
+  let t := p + q - d * d in
+  if Qle_bool p q then
+    (if Qle_bool 0 d then true else Qle_bool 0 t && Qle_bool (4 * p * q) (t * t))
+  else
+    (if Qle_bool d 0 then false else Qle_bool t 0 || Qle_bool (t * t) (4 * p * q)).
+
+Local Close Scope Q_scope.
+
+Definition e_m (e : mo_entry) : Q := nth 0 (fst e) 0%Q.     (* UCVE::V[0], estimated mean *)
+Definition e_b (e : mo_entry) : Q := nth 1 (fst e) 0%Q.     (* UCVE::V[1], inverse weighted count *)
+
+(* src: UCVE.cpp:computeValue(e1, x1, logtA12) <= computeValue(e2, x2, logtA12) *)
+Definition uval_le (L : Q) (e1 : mo_entry) (x1 : Q) (e2 : mo_entry) (x2 : Q) : bool :=
+  sqrt_sum_le (e_m e1) ((e_b e1 + x1) * L)%Q (e_m e2) ((e_b e2 + x2) * L)%Q.
+
+(* src: Utils/Core.hpp:max_element_unary — the first strict maximum (index, element) *)
+Fixpoint uc_argmax_go (L x : Q) (best : mo_entry) (bi i : nat) (l : mo_factor) : nat * mo_entry :=
+  match l with
+  | [] => (bi, best)
+  | e :: t => if uval_le L e x best x then uc_argmax_go L x best bi (S i) t else uc_argmax_go L x e i (S i) t
+  end.
+
+(* src: UCVE.cpp:Global::endFactorCrossSum, the pruning block: drop dominated entries, find the
+   best entry under the LOWER variance bound, drop every other entry that cannot beat it even under
+   the UPPER bound *)
+Definition uc_prune (L xl xu : Q) (tmp : mo_factor) : mo_factor :=
+  match mo_prune_go tmp [] tmp with
+  | [] => []
+  | e0 :: rest =>
+    let (bi, best) := uc_argmax_go L xl e0 0 1 rest in
+    best :: map snd (filter (fun ie : nat * mo_entry => negb (fst ie =? bi) && negb (uval_le L (snd ie) xu best xl))
+                            (combine (seq 0 (S (length rest))) (e0 :: rest)))
+  end.
+
+(* src: UCVE.cpp:Global::crossSum / endFactorCrossSum over the agent's factors for one joint value *)
+Definition uc_cross_sum (A : list nat) (L xl xu : Q) (Fv : list mo_node) (jv : list nat) : mo_factor :=
+  fold_left (fun (acc : mo_factor) (nd : mo_node) =>
+               match mo_lb_find (pidx (fst nd) A jv) (snd nd) with
+               | Some f =>
+                 match mo_cross acc f with
+                 | [] => acc
+                 | tmp => if (length acc <? length tmp) && (1 <? length tmp) then uc_prune L xl xu tmp else tmp
+                 end
+               | None => acc
+               end) Fv [].
+
+(* src: UCVE.cpp:Global::endCrossSum + isValidNewFactor (implicit (0,0) entries of unmentioned actions) *)
+Definition uc_new_factor (A : list nat) (L xl xu : Q) (Fv : list mo_node) (N : list nat) (v j : nat) : mo_factor :=
+  let base := scatter N (pdec N A j) (length A) in
+  let ents := flat_map (fun x => map (fun e : mo_entry => (fst e, tag_insert v x (fst (snd e)) (snd (snd e))))
+                                     (uc_cross_sum A L xl xu Fv (upd v x base)))
+                       (seq 0 (nth v A 0)) in
+  match ents with
+  | [] => []
+  | _ => ents ++ map (fun x => ([0%Q; 0%Q], ([v], [x])))
+                     (filter (fun x => isnil (uc_cross_sum A L xl xu Fv (upd v x base))) (seq 0 (nth v A 0)))
+  end.
+
+Definition qmaxl (d : Q) (l : list Q) : Q := fold_left (fun m x => if Qle_bool m x then x else m) l d.
+Definition qminl (d : Q) (l : list Q) : Q := fold_left (fun m x => if Qle_bool x m then x else m) l d.
+
+(* variance range of one factor as beginRemoval computes it: over all entries of all rules, widened
+   to contain 0 when the factor has fewer rules than local joint actions (or no entry at all) *)
+Definition uc_range (A : list nat) (nd : mo_node) : Q * Q :=
+  match flat_map (fun r : nat * mo_factor => map e_b (snd r)) (snd nd) with
+  | [] => (0%Q, 0%Q)
+  | b0 :: bs =>
+    let mx := qmaxl b0 bs in let mn := qminl b0 bs in
+    if length (snd nd) <? psize (fst nd) A
+    then ((if Qle_bool mx 0 then 0%Q else mx), (if Qle_bool 0 mn then 0%Q else mn))
+    else (mx, mn)
+  end.
+
+(* src: UCVE.cpp:Global::beginRemoval — (x_u, x_l), starting from the finished components' totals *)
+Definition uc_bounds (A : list nat) (v : nat) (g : list mo_node) (fin_mx fin_mn : Q) : Q * Q :=
+  fold_left (fun (acc : Q * Q) (nd : mo_node) =>
+               let (mx, mn) := uc_range A nd in
+               if mem v (fst nd) then ((if Qle_bool mx 0 then fst acc else (fst acc + mx)%Q), snd acc)
+               else ((fst acc + mx)%Q, (snd acc + mn)%Q)) g (fin_mx, fin_mn).
+
+Definition uc_state : Type := (list mo_node * list mo_factor) * (Q * Q).
+
+(* src: GenericVariableElimination::removeFactor with the UCVE callbacks *)
+Definition uc_remove_factor (A : list nat) (L : Q) (st : uc_state) (v : nat) : uc_state :=
+  let (gf, fb) := st in let (g, fin) := gf in let (fmx, fmn) := fb in
+  let Fv := filter (fun nd : mo_node => mem v (fst nd)) g in
+  let G := filter (fun nd : mo_node => negb (mem v (fst nd))) g in
+  let N := mo_neighbours (length A) v Fv in
+  let (xu, xl) := uc_bounds A v g fmx fmn in
+  let news := map (uc_new_factor A L xl xu Fv N v) (seq 0 (psize N A)) in
+  match N with
+  | [] =>
+    let valid := filter (fun f : mo_factor => negb (isnil f)) news in
+    let add := fold_left (fun (acc : Q * Q) (f : mo_factor) =>
+                            match map e_b f with
+                            | [] => acc
+                            | b0 :: bs => ((fst acc + qmaxl b0 bs)%Q, (snd acc + qminl b0 bs)%Q)
+                            end) valid (fmx, fmn) in
+    ((G, fin ++ valid), add)
+  | _ => ((mo_upd_node N (mo_merge_walk news 0) G, fin), (fmx, fmn))
+  end.
+
+(* src: UCVE.cpp:Global::makeResult *)
+Definition uc_make_result (n : nat) (L : Q) (fin : list mo_factor) : list nat * (Q * Q) :=
+  let joint := fold_left (fun (j : mo_factor) (f : mo_factor) =>
+                            let c := mo_cross j f in if 1 <? length c then mo_prune_go c [] c else c) fin [] in
+  match joint with
+  | [] => (repeat 0 n, (0%Q, 0%Q))
+  | e0 :: rest =>
+    let (_, best) := uc_argmax_go L 0%Q e0 0 1 rest in
+    (apply_tags (combine (fst (snd best)) (snd (snd best))) (repeat 0 n), (e_m best, e_b best))
+  end.
+
+(* src: UCVE.hpp:operator()(A, logtA, inputRules); rules carry [mean; bonus] *)
+Definition ucve (A : list nat) (logtA : Q) (rs : list mo_rule) (order : list nat) : list nat * (Q * Q) :=
+  let L := (logtA * (1 # 2))%Q in
+  let stE := fold_left (uc_remove_factor A L) order ((mo_make_graph A rs, []), (0%Q, 0%Q)) in
+  uc_make_result (length A) L (snd (fst stE)).
+
+(* the (agent, x_l, x_u) triples beginRemoval computes, in elimination order (observable through the
+   AITOOLBOX_VERIF hook UCVE::verifBoundsObserver when /repo provides it) *)
+Definition ucve_trace (A : list nat) (logtA : Q) (rs : list mo_rule) (order : list nat) : list (nat * (Q * Q)) :=
+  let L := (logtA * (1 # 2))%Q in
+  snd (fold_left (fun (acc : uc_state * list (nat * (Q * Q))) (v : nat) =>
+                    let st := fst acc in
+                    let (xu, xl) := uc_bounds A v (fst (fst st)) (fst (snd st)) (snd (snd st)) in
+                    (uc_remove_factor A L st v, snd acc ++ [(v, (xl, xu))]))
+                 order (((mo_make_graph A rs, []), (0%Q, 0%Q)), [])).
+
 (* ---------- the elimination-order heuristic actually used by the code ---------- *)
 
 Definition nbrs_in (n v : nat) (g : graph) : list nat :=
